@@ -2,6 +2,7 @@
 """C10 - reference events deliver canonical coordinates, once, in evaluation order"""
 import copy
 import datetime
+import json
 import random
 import string
 import zlib
@@ -36,12 +37,36 @@ RULE = ('(a) seeded expression trees (depth <= 5 quick, <= 7 thorough) whose lea
         'events (cell, range, defined/undefined variable, custom/builtin/raising/None-returning function), read back '
         'directly or through a capturing function; oracle: last non-None value, else blank / stored value / return value; '
         'compared with the model\'s `applySetters`. (c) a grid of label pairs x $ patterns x case x corner orders. '
-        'Non-trivial = at least two events expected, or at least one setter call.')
+        '(d) multi-step sessions: 1..6 formulas (a fixed list plus seeded ones) evaluated one after another on ONE '
+        'long-lived parser; the references of a session are drawn from a small pool of 1..3 columns x 1..3 rows (the $ '
+        'marker travelling with its column / row, now and then flipped, case mixed), so that the same label comes back as '
+        'a plain cell, as a written corner and as a normalised corner of ranges in all corner orders, inside one formula and '
+        'across formulas, many times. One case per step: the oracle of (a) is applied to EVERY event of EVERY step '
+        '(post-order list of that step, upper-cased label, independent coordinates, $ flags, normalised corners whose '
+        'labels recompose), whatever was evaluated before; each step is compared with the (stateless) model\'s `eval` of '
+        'its formula alone. (e) re-entrant hosts: the host stores formulas in 1..4 ranked things - cells (the cell listener '
+        'evaluates the stored formula ON THE SAME PARSER while the outer evaluation is in progress and hands over its '
+        'result), defined names (variable listener) and INDIRECT-like custom functions that evaluate their text argument '
+        '(returning the result or raising the error) - which may use one another (rank order, no cycles, nesting depth up '
+        'to 4); the outer formula uses them at its beginning / in the middle (operand, call argument) / at its end or '
+        'anywhere in a seeded tree. The recording listeners attribute each event to its nesting depth. Oracle: the '
+        'depth-0 events are the post-order list of the OUTER formula (oracle of (a), incl. the references after the '
+        're-entrant call), and record and event list (with call arguments) of the outer evaluation equal those of the '
+        'same formula evaluated on the real implementation with every inner formula evaluated on a parser of its own, i.e. '
+        'with the inner results as constants; the same two demands for every inner evaluation at its own depth. '
+        'Compared with the model: `eval` of the outer formula in an environment where the inner results are constants. '
+        'Non-trivial = at least two events expected (for a later session step: one), or at least one setter call; for '
+        '(e) additionally at least one inner evaluation took place.')
 TRUSTED = ['ply evaluates semantic actions bottom-up, left to right (the model evaluates the tree in post-order); tied by this '
            'correspondence check, not proved',
            'the tree the model parser builds for the formula text is the generating tree (C04/C05 correspondence)',
            'hotxlfp.tinyemitter.Emitter.emit calls the registered listeners in registration order (C20); the model receives '
-           'the setter calls already flattened in that order']
+           'the setter calls already flattened in that order',
+           'the model is stateless and has no notion of an evaluation in progress: sessions (d) and re-entrant hosts (e) '
+           'are tied to it only by this check (each step / the outer formula with inner results as constants = `eval`); '
+           'that a parser keeps no state between or across evaluations is not a Lean theorem',
+           'the reference run of (e) uses the real implementation with one fresh Parser per inner formula (the pattern of '
+           'tests/test_parser.py); both runs use the same deterministic listeners']
 ASSUMPTIONS = ['labels with a zero row or leading zeros (A0, A01) are outside the statement\'s label domain: order and '
                'multiplicity are still checked for them, coordinates only against the model',
                'when parse reports an error, the references after the point of failure are not required to raise events '
@@ -49,7 +74,13 @@ ASSUMPTIONS = ['labels with a zero row or leading zeros (A0, A01) are outside th
                'for a one-row (one-column) range whose two row (column) parts differ only by $, either part may be reported '
                'as the start',
                '`corresponding event` for a call = its name (and the number of argument slots for a flat argument list); the '
-               'argument values are compared with the model only']
+               'argument values are compared with the model only (and, for re-entrant hosts, with the non-re-entrant run)',
+               'the statement quantifies over formulas, not over parser histories: it is read as holding for every formula '
+               'evaluated on a parser that has evaluated other formulas before, and for a formula whose host callbacks '
+               'evaluate other formulas on the same parser meanwhile',
+               'for re-entrant hosts the exemption for references after a point of failure covers only failures of the '
+               'formula itself: whether one occurs is decided by the same formula evaluated with the inner results as '
+               'constants; events of inner evaluations belong to the inner formulas (nesting-depth attribution)']
 EXHAUSTIVE = {'quick': False, 'thorough': False}
 
 UP = string.ascii_uppercase
@@ -201,8 +232,24 @@ def part(p):
     return (p.index, p.label, bool(p.is_absolute))
 
 
-def new_parser(log, values=True):
-    """a fresh hotxlfp.Parser with one recording listener per event"""
+class DepthLog(list):
+    """the ordered event log of one parser; each entry is attributed to the nesting depth at which it was raised
+    (0 = the evaluation the harness started, d+1 = an evaluation started by a host callback during depth d)"""
+
+    def __init__(self):
+        list.__init__(self)
+        self.d = 0
+        self.depths = []
+
+    def append(self, e):
+        list.append(self, e)
+        self.depths.append(self.d)
+
+
+def new_parser(log, values=True, host=None):
+    """a fresh hotxlfp.Parser with one recording listener per event.  `host` (re-entrant scenarios): an object
+    with `cells` / `names` (label / variable name -> formula the host stores there), `fns` (names of INDIRECT-like
+    functions) and `evaluate(parser, formula) -> record`"""
     common.load_repo()
     import hotxlfp
     from hotxlfp.formulas import error
@@ -219,7 +266,11 @@ def new_parser(log, values=True):
 
     def on_cell(cell, setter):
         log.append(('cell', cell.label, part(cell.row), part(cell.col)))
-        if values:
+        if host is not None and cell.label in host.cells:
+            # a cell that holds a formula: the host evaluates it and hands over its value
+            rec = host.evaluate(p, host.cells[cell.label])
+            hand_over(setter, rec['result'], setter_script(cell.label))
+        elif values:
             hand_over(setter, cell_value(cell.label), setter_script(cell.label))
 
     def on_range(s, e, setter):
@@ -229,6 +280,9 @@ def new_parser(log, values=True):
 
     def on_var(name, setter):
         log.append(('var', name))
+        if host is not None and name in host.names:
+            # a defined name that holds a formula
+            setter(host.evaluate(p, host.names[name])['result'])
 
     def on_fn(name, args, setter):
         log.append(('fn', name, snapshot(args)))
@@ -236,6 +290,15 @@ def new_parser(log, values=True):
     p.on('callRangeValue', on_range)
     p.on('callVariable', on_var)
     p.on('callFunction', on_fn)
+    if host is not None:
+        def indirect(*a):
+            # INDIRECT-like: evaluates its text argument as a formula
+            rec = host.evaluate(p, a[0])
+            if rec['error'] is not None and host.onerr:
+                raise error.from_message(rec['error'])
+            return rec['result']
+        for name in host.fns:
+            p.set_function(name, indirect)
     return p
 
 
@@ -299,7 +362,61 @@ ANY, SCALAR, NUM = 0, 1, 2
 # here they would only blur the comparison of values with the model.
 
 
-def gen_leaf(rng, mode=ANY):
+def gen_pool(rng, big=False):
+    """the labels one session talks about: a few columns x a few rows, the $ marker travelling with its column / row,
+    so that the same label keeps coming back as a cell, as a written corner and as a normalised corner of ranges"""
+    small_cols = ['A', 'B', 'C', 'D', 'E', 'Z', 'AA', 'AB', 'XFD', 'ZZ']
+    nc, nr = rng.randrange(1, 4), rng.randrange(1, 4)
+    if big:
+        nc, nr = max(nc, 2), max(nr, 2)
+    elif nc * nr == 1:
+        nc = 2
+    cols, rows = [], []
+    while len(cols) < nc:
+        x = rng.choice(small_cols) if rng.random() < 0.7 else gen_letters(rng)
+        if x not in cols:
+            cols.append(x)
+    while len(rows) < nr:
+        y = rng.randrange(1, 10) if rng.random() < 0.7 else gen_row(rng)
+        if y not in rows:
+            rows.append(y)
+    pd = rng.choice([0.0, 0.0, 0.3, 0.6])            # half of the sessions write no $ at all
+    return {'cols': [(x, rng.random() < pd) for x in cols], 'rows': [(y, rng.random() < pd) for y in rows],
+            'reent': [], 'p_re': 0.0, 'forbid': set()}
+
+
+def pool_label(rng, pool, col=None, row=None):
+    (letters, ca) = col or rng.choice(pool['cols'])
+    (rownum, ra) = row or rng.choice(pool['rows'])
+    if rng.random() < 0.06:
+        ca = not ca                                  # now and then another $ pattern of the same cell
+    if rng.random() < 0.06:
+        ra = not ra
+    return ('$' if ca else '') + mix_case(rng, letters) + ('$' if ra else '') + str(rownum)
+
+
+def pool_cell(rng, pool):
+    for _ in range(20):
+        lab = pool_label(rng, pool)
+        if lab.upper() not in pool['forbid']:
+            return ('cell', lab)
+    return ('num', 'int', '1', '')
+
+
+def pool_range(rng, pool):
+    """both corners from the pool, picked independently: all four corner orders, one-row / one-column / one-cell ranges"""
+    return ('range', pool_label(rng, pool), pool_label(rng, pool))
+
+
+def gen_leaf(rng, mode=ANY, pool=None):
+    if pool is not None:
+        if pool['reent'] and rng.random() < pool['p_re']:
+            return _use(rng, rng.choice(pool['reent']))
+        if rng.random() < 0.8:
+            if rng.random() < 0.62:
+                return pool_cell(rng, pool)
+            rg = pool_range(rng, pool)
+            return rg if mode == ANY else ('call', 'SUM', 'flat', [rg], [])
     r = rng.random()
     if r < 0.38:
         return ('cell', gen_label(rng))
@@ -323,12 +440,12 @@ def gen_leaf(rng, mode=ANY):
     return ('call', 'K7', 'empty', [], [])
 
 
-def gen_args(rng, depth, lo=1, hi=3, mode=ANY):
+def gen_args(rng, depth, lo=1, hi=3, mode=ANY, pool=None):
     n = rng.randrange(lo, hi + 1)
-    return [gen(rng, depth, mode) for _ in range(n)]
+    return [gen(rng, depth, mode, pool) for _ in range(n)]
 
 
-def gen_call(rng, depth, mode=ANY):
+def gen_call(rng, depth, mode=ANY, pool=None):
     r = rng.random()
     if r < 0.40 and mode == ANY:
         name = rng.choice(['ID', 'ARGS', 'ARGS'])
@@ -344,42 +461,233 @@ def gen_call(rng, depth, mode=ANY):
         name = rng.choice(['NOSUCH', 'XYZZY'])
     sub = max(mode, SCALAR)
     if name == 'IF':
-        args = gen_args(rng, depth - 1, 3, 3, sub)
+        args = gen_args(rng, depth - 1, 3, 3, sub, pool)
     elif name in ('NOT', 'N', 'ABS'):
-        args = gen_args(rng, depth - 1, 1, 1, sub)
+        args = gen_args(rng, depth - 1, 1, 1, sub, pool)
     elif name in ('ISNUMBER', 'ISBLANK', 'ISTEXT'):
-        args = gen_args(rng, depth - 1, 1, 1)
+        args = gen_args(rng, depth - 1, 1, 1, ANY, pool)
     elif name == 'IFERROR':
-        args = gen_args(rng, depth - 1, 2, 2, sub)
+        args = gen_args(rng, depth - 1, 2, 2, sub, pool)
     else:
-        args = gen_args(rng, depth - 1, 1, 3)
+        args = gen_args(rng, depth - 1, 1, 3, ANY, pool)
     r = rng.random()
     if name in ('ARGS', 'ID') and r < 0.12 and len(args) >= 2:
         k = rng.randrange(0, len(args) - 1)
         args = args[:k + 1] + ['blank'] + args[k + 1:]          # an omitted slot in the middle
         return ('call', name, 'flat', args, [])
     if name in ('ARGS', 'ID') and r < 0.2:
-        return ('call', name, 'rows', gen_args(rng, depth - 1, 2, 3), gen_args(rng, depth - 1, 2, 2), ',')
+        return ('call', name, 'rows', gen_args(rng, depth - 1, 2, 3, ANY, pool), gen_args(rng, depth - 1, 2, 2, ANY, pool), ',')
     if r < 0.3:
         return ('call', name, 'flat', args, [], ';')
     return ('call', name, 'flat', args, [])
 
 
-def gen(rng, depth, mode=ANY):
+def gen(rng, depth, mode=ANY, pool=None):
     if depth <= 0 or rng.random() < 0.15:
-        return gen_leaf(rng, mode)
+        return gen_leaf(rng, mode, pool)
     r = rng.random()
     if r < 0.07:
-        return ('neg', gen(rng, depth - 1, NUM))
+        return ('neg', gen(rng, depth - 1, NUM, pool))
     if r < 0.27:
         op = rng.choice(['+', '+', '-', '*', '*', '/'])
-        return ('bin', op, gen(rng, depth - 1, NUM), gen(rng, depth - 1, NUM))
+        return ('bin', op, gen(rng, depth - 1, NUM, pool), gen(rng, depth - 1, NUM, pool))
     if r < 0.45:
         op = rng.choice(['=', '<>', '<', '>', '<=', '>='] if mode == NUM else ['&', '&', '=', '<>', '<', '>', '<=', '>='])
-        return ('bin', op, gen(rng, depth - 1, SCALAR), gen(rng, depth - 1, SCALAR))
+        return ('bin', op, gen(rng, depth - 1, SCALAR, pool), gen(rng, depth - 1, SCALAR, pool))
     if r < 0.92 or mode != ANY:
-        return gen_call(rng, depth, mode)
-    return ('arr', 'flat', gen_args(rng, depth - 1, 1, 3, SCALAR), [])
+        return gen_call(rng, depth, mode, pool)
+    return ('arr', 'flat', gen_args(rng, depth - 1, 1, 3, SCALAR, pool), [])
+
+
+# ---- (d) sessions: several formulas, one after another, on one long-lived parser
+
+def gen_session(rng, maxd):
+    pool = gen_pool(rng)
+    steps = []
+    for _ in range(rng.choice([1, 2, 2, 3, 3, 4, 5, 6])):
+        r = rng.random()
+        if r < 0.2:
+            t = pool_range(rng, pool)                # a bare range / a bare cell: the shortest way to meet a label again
+        elif r < 0.35:
+            t = pool_cell(rng, pool)
+        else:
+            t = gen(rng, rng.randrange(1, maxd + 1), ANY, pool)
+        steps.append({'t': t, 'full': rng.random() < 0.2, 'ws': rng.randrange(1 << 30) if rng.random() < 0.2 else 0})
+    return steps
+
+
+SESSIONS = [
+    ['SUM(B2:A1)+b2'], ['SUM(A2:B1)', 'a2'], ['B2:A1', 'A1', 'B2', 'b2:a1', 'A1:B2', 'a2:b1', 'B1:A2', 'A2', 'B1', 'a1'],
+    ['$B$2:a1', '$b$2', 'A1', '$B2', 'B$2', '$A$1:$B$2', 'a1:$b$2'], ['A1', 'A1', 'a1+A1', 'SUM(A1,a1,A1:A1)'],
+    ['ARGS(C3:A1,c3,a1,C1,A3,A1:C3)', 'ARGS(A3:C1,a3,c1,A1,C3)'], ['XFD1048576:A1', 'xfd1048576+A1', 'A1048576', 'XFD1'],
+    ['nosuchvar+A1', 'A1', 'B2:A1', 'BOOM(b2)+a1', 'b2'], ['A1:B2', 'B2:A1', 'A2:B1', 'B1:A2', 'A1:B2'], ['b1:A1', 'B1', 'A1:a1', 'A1'],
+]
+
+
+# ---- (e) re-entrant hosts: callbacks that evaluate further formulas on the same parser
+
+HOST_NAMES = ['nf_a', 'nf_b', 'named_c']             # defined names that hold a formula
+HOST_FNS = ['EVALF', 'INDIR', 'REF_TO']               # INDIRECT-like custom functions
+
+
+def _use(rng, item):
+    """a reference to a host-evaluated thing, as a leaf of a tree"""
+    if item[0] == 'cell':
+        return ('cell', ''.join(rng.choice([ch, ch.lower()]) for ch in item[1]))
+    if item[0] == 'name':
+        return ('var', [item[1]])
+    return ('call', item[1], 'flat', [('str', item[2])], [])
+
+
+def _labels_of(t, acc):
+    """upper-cased labels of the plain cell references and names of the variables of a tree"""
+    if t == 'blank':
+        return acc
+    k = t[0]
+    if k == 'cell':
+        acc.add(('cell', t[1].upper()))
+    elif k == 'var':
+        acc.add(('name', t[1][0]))
+    elif k == 'neg':
+        _labels_of(t[1], acc)
+    elif k == 'bin':
+        _labels_of(t[2], acc)
+        _labels_of(t[3], acc)
+    elif k == 'call':
+        if t[1] in HOST_FNS and t[3] and t[3][0] != 'blank' and t[3][0][0] == 'str':
+            acc.add(('fn', t[1], t[3][0][1]))
+        for x in list(t[3]) + list(t[4]):
+            _labels_of(x, acc)
+    elif k == 'arr':
+        for x in list(t[2]) + list(t[3]):
+            _labels_of(x, acc)
+    return acc
+
+
+def gen_reent(rng, maxd):
+    """-> case or None.  The host stores formulas in some cells / defined names and offers INDIRECT-like functions;
+    the things are ranked, the formula of a thing only uses things of higher rank (no cycles)."""
+    pool = gen_pool(rng, big=True)
+    n = rng.choice([1, 1, 2, 2, 3, 4])
+    kinds = [rng.choice(['cell', 'cell', 'cell', 'fn', 'fn', 'name']) for _ in range(n)]
+    labels = sorted(set(('$' if ca else '') + x + ('$' if ra else '') + str(y) for x, ca in pool['cols'] for y, ra in pool['rows']))
+    rng.shuffle(labels)
+    labels = labels[:max(1, len(labels) - 1)]          # at least one plain cell stays
+    names, fns = list(HOST_NAMES), list(HOST_FNS)
+    items = [None] * n
+    for i in range(n):
+        if kinds[i] == 'cell' and labels:
+            items[i] = ['cell', labels.pop()]
+        elif kinds[i] == 'name' and names:
+            items[i] = ['name', names.pop(0)]
+        elif fns:
+            items[i] = ['fn', fns.pop(0), None]
+        else:
+            return None
+    host_cells = set(it[1] for it in items if it[0] == 'cell')
+    c = {'kind': 'reent', 'cells': {}, 'names': {}, 'fns': {}, 'texts': {}, 'onerr': rng.randrange(2)}
+    for i in reversed(range(n)):
+        later = [tuple(x) for x in items[i + 1:]]
+        it = items[i]
+        for _ in range(30):
+            sub = dict(pool, forbid=host_cells, p_re=0.3,
+                       reent=[x for x in later if it[0] != 'fn' or x[0] != 'fn'])
+            t = gen(rng, rng.randrange(0, 3), NUM, sub)
+            f = fx.render(t, levels=levels())
+            if it[0] != 'fn' or ('"' not in f and "'" not in f and f not in c['texts']):
+                break
+        else:
+            return None
+        st = {'t': t, 'f': f}
+        if it[0] == 'cell':
+            c['cells'][it[1]] = st
+        elif it[0] == 'name':
+            c['names'][it[1]] = st
+        else:
+            it[2] = f
+            c['fns'][it[1]] = f
+            c['texts'][f] = st
+    allitems = [tuple(x) for x in items]
+    out_pool = dict(pool, forbid=host_cells, reent=allitems, p_re=0.3)
+
+    def plain(d):
+        return gen(rng, rng.randrange(0, d + 1), NUM, dict(out_pool, p_re=0.1))
+    shape = rng.randrange(6)
+    R = _use(rng, rng.choice(allitems))
+    op = rng.choice(['+', '+', '-', '*', '=', '<', '>='])
+    op2 = rng.choice(['+', '-', '*'])
+    if shape == 0:
+        t = ('bin', op, R, plain(maxd - 1))                                          # first thing the outer formula does
+    elif shape == 1:
+        t = ('bin', op, plain(maxd - 1), R)                                          # last thing
+    elif shape == 2:
+        t = ('bin', op2, ('bin', op2, plain(maxd - 2), R), plain(maxd - 2))          # in the middle
+    elif shape == 3:
+        t = ('call', rng.choice(['ARGS', 'SUM', 'ID', 'MAX']), 'flat', [plain(maxd - 2), R, plain(maxd - 2)], [])
+        if rng.random() < 0.5:
+            t = ('bin', op, t, plain(1))
+    else:
+        for _ in range(20):
+            t = gen(rng, rng.randrange(1, maxd + 1), ANY, out_pool)
+            if any(x in allitems for x in _labels_of(t, set())):
+                break
+        else:
+            t = ('bin', op, R, plain(maxd - 1))
+    f = fx.render(t, full=rng.random() < 0.2, levels=levels())
+    if '"' not in f and rng.random() < 0.2:
+        f = c04.add_space(random.Random(rng.randrange(1 << 30)), f)
+    c['outer'] = {'t': t, 'f': f}
+    return c if _acyclic(c) else None
+
+
+def _acyclic(c):
+    """no host-evaluated thing reaches itself"""
+    graph = {}
+    for kind, d in (('cell', c['cells']), ('name', c['names'])):
+        for key, st in d.items():
+            graph[(kind, key)] = _labels_of(_fix(st['t']), set()) if 't' in st else None
+    for fname, text in c['fns'].items():
+        st = c['texts'][text]
+        graph[('fn', fname, text)] = _labels_of(_fix(st['t']), set()) if 't' in st else None
+    if any(v is None for v in graph.values()):
+        return True                                   # fixed corpus entries are acyclic by hand
+    state = {}
+
+    def visit(k):
+        if state.get(k) == 1:
+            return False
+        if state.get(k) == 2:
+            return True
+        state[k] = 1
+        for j in graph[k]:
+            if j in graph and not visit(j):
+                return False
+        state[k] = 2
+        return True
+    return all(visit(k) for k in graph)
+
+
+REENT = [
+    # the two witnesses of the missed change, then begin / middle / end, nesting, errors inside
+    {'outer': 'REF_TO("B1")+C1*rate_x', 'fns': {'REF_TO': 'B1'}},
+    {'outer': 'SUM(A1,C1)+D1', 'cells': {'A1': 'B1*2'}},
+    {'outer': 'A1', 'cells': {'A1': 'B1*2'}}, {'outer': 'C1+A1', 'cells': {'A1': 'B1*2'}},
+    {'outer': 'A1+C1', 'cells': {'A1': 'B1*2'}}, {'outer': 'C1+A1+va*D1', 'cells': {'A1': 'B1*2'}},
+    {'outer': 'ARGS(C1,a1,D1:C2,vb)&K7()', 'cells': {'A1': 'B1*2'}},
+    {'outer': 'SUM(A1,B1,D1)&va', 'cells': {'A1': 'B1+1', 'B1': 'SUM(C1:D2)*nf_a', }, 'names': {'nf_a': 'D1+vb'}},
+    {'outer': 'A1+A1+a1', 'cells': {'A1': 'B1+C1'}}, {'outer': 'nf_a*2+B1', 'names': {'nf_a': 'A1+1'}},
+    {'outer': 'EVALF("A1+B1")+INDIR("SUM(B2:A1)")+C1', 'fns': {'EVALF': 'A1+B1', 'INDIR': 'SUM(B2:A1)'}},
+    {'outer': 'A1+C1', 'cells': {'A1': 'nosuchvar+B1'}}, {'outer': 'IFERROR(EVALF("1/0"),B1)+C1', 'fns': {'EVALF': '1/0'}, 'onerr': 1},
+    {'outer': 'A1+C1', 'cells': {'A1': 'B1+'}}, {'outer': 'ID(EVALF("B1)"))+C1', 'fns': {'EVALF': 'B1)'}},
+    {'outer': 'B2:A1+EVALF("b2")+a1', 'fns': {'EVALF': 'b2'}},
+]
+
+
+def _reent_fixed(d):
+    c = {'kind': 'reent', 'outer': {'f': d['outer']}, 'cells': {k: {'f': v} for k, v in d.get('cells', {}).items()},
+         'names': {k: {'f': v} for k, v in d.get('names', {}).items()}, 'fns': dict(d.get('fns', {})),
+         'texts': {v: {'f': v} for v in d.get('fns', {}).values()}, 'onerr': d.get('onerr', 0)}
+    return c
 
 
 def _fix(t):
@@ -437,6 +745,10 @@ def postorder(t):
 
 
 def formula_of(c):
+    if c.get('kind') == 'session':
+        c = c['steps'][c['k']]
+    elif c.get('kind') == 'reent':
+        c = c['outer']
     if 'f' in c:
         return c['f']
     t = _fix(c['t'])
@@ -482,6 +794,19 @@ def cases(rng, ctx):
                     b = m[x2] + x2 + m[y2] + str(y2)
                     out.append({'kind': 'tree', 'f': '%s:%s' % (a, b)})
         out.append({'kind': 'tree', 'f': 'ARGS(%s%d,%s$%d)' % (c1, r1, c2.lower(), r2)})
+    # (d) sessions on one long-lived parser: one case per step, every step carries the whole session
+    for fs in SESSIONS:
+        steps = [{'f': f} for f in fs]
+        out += [{'kind': 'session', 'steps': steps, 'k': k} for k in range(len(steps))]
+    for _ in range((5000 if thorough else 350) * scale):
+        steps = gen_session(rng, 3 if rng.random() < 0.7 else maxd - 1)
+        out += [{'kind': 'session', 'steps': steps, 'k': k} for k in range(len(steps))]
+    # (e) re-entrant hosts
+    out += [_reent_fixed(d) for d in REENT]
+    for _ in range((6000 if thorough else 400) * scale):
+        c = gen_reent(rng, 3 if rng.random() < 0.7 else maxd - 1)
+        if c is not None:
+            out.append(c)
     # (b) setter protocols
     m = (6000 if thorough else 700) * scale
     for _ in range(m):
@@ -512,6 +837,85 @@ def _setter_formula(c):
     return ('CAP(%s)' % c['target']) if c['wrap'] else c['target']
 
 
+_last_session = [None, None]
+
+
+def run_session(steps):
+    """all formulas of the session, in order, on ONE parser; -> per step its record and the events it raised"""
+    key = json.dumps(steps, sort_keys=True)
+    if _last_session[0] != key:
+        log = []
+        p = new_parser(log)
+        res = []
+        for st in steps:
+            f = formula_of(st)
+            a = len(log)
+            rec = p.parse(f)
+            res.append({'f': f, 'rec': rec, 'log': log[a:]})
+        _last_session[0], _last_session[1] = key, res
+    return _last_session[1]
+
+
+class Host(object):
+    """what the host stores / offers in a re-entrant scenario.  `nested`: evaluate on the SAME parser while the outer
+    evaluation is in progress; otherwise every inner formula gets a parser of its own (the reference behaviour: the
+    inner results are mere constants for the outer evaluation)"""
+    MAX_DEPTH = 12
+
+    def __init__(self, c, log, nested):
+        self.cells = {k: formula_of(v) for k, v in c['cells'].items()}
+        self.names = {k: formula_of(v) for k, v in c['names'].items()}
+        self.fns = dict(c['fns'])
+        self.onerr = c.get('onerr', 0)
+        self.log = log
+        self.nested = nested
+        self.inner = []
+        self.memo = {}
+        self.c = c
+
+    def evaluate(self, p, formula):
+        if not self.nested:
+            if formula not in self.memo:
+                self.memo[formula] = run_flat(self.c, formula, self.memo)
+            return self.memo[formula]['rec']
+        log = self.log
+        if log.d >= self.MAX_DEPTH:
+            raise RuntimeError('harness: runaway nesting')
+        log.d += 1
+        d, a = log.d, len(log)
+        try:
+            rec = p.parse(formula)
+        finally:
+            log.d -= 1
+        self.inner.append({'f': formula, 'depth': d, 'rec': rec,
+                           'log': [e for e, dd in zip(log[a:], log.depths[a:]) if dd == d]})
+        return rec
+
+
+def run_flat(c, formula, memo):
+    log = DepthLog()
+    host = Host(c, log, False)
+    host.memo = memo
+    p = new_parser(log, host=host)
+    rec = p.parse(formula)
+    return {'f': formula, 'rec': rec, 'log': list(log)}
+
+
+def run_reent(c):
+    log = DepthLog()
+    host = Host(c, log, True)
+    p = new_parser(log, host=host)
+    f = formula_of(c)
+    rec = p.parse(f)
+    memo = {}
+    flat = run_flat(c, f, memo)
+    for i in host.inner:
+        if i['f'] not in memo:
+            memo[i['f']] = run_flat(c, i['f'], memo)
+    return {'f': f, 'rec': rec, 'log': [e for e, d in zip(log, log.depths) if d == 0], 'inner': host.inner,
+            'flat': flat, 'flat_inner': memo}
+
+
 def impl(c):
     if c['kind'] == 'tree':
         log = []
@@ -519,6 +923,12 @@ def impl(c):
         f = formula_of(c)
         rec = p.parse(f)
         return {'f': f, 'rec': rec, 'log': log}
+    if c['kind'] == 'session':
+        res = dict(run_session(c['steps'])[c['k']])
+        res['before'] = [formula_of(st) for st in c['steps'][:c['k']]]
+        return res
+    if c['kind'] == 'reent':
+        return run_reent(c)
     # setter protocol
     from hotxlfp.formulas import error
     log = []
@@ -578,14 +988,49 @@ def same(a, b):
     return a == b
 
 
+def _step(c):
+    """the formula descriptor a tree-like case is about"""
+    if c['kind'] == 'session':
+        return c['steps'][c['k']]
+    if c['kind'] == 'reent':
+        return c['outer']
+    return c
+
+
 def request(c):
-    if c['kind'] == 'tree':
-        f = formula_of(c)
+    if c['kind'] in ('tree', 'session', 'reent'):
+        # a session step: the model is stateless, the step is compared with `eval` of its formula alone.
+        # a re-entrant case: `eval` of the outer formula, the inner results (taken from evaluations of the inner
+        # formulas on parsers of their own) supplied as constants
+        st = _step(c)
+        f = formula_of(st)
         cells, ranges = {}, {}
-        for e in postorder(_fix(c['t'])) if 't' in c else _scan_refs(f):
+        variables, fns = VARS, CUSTOM
+        flat = None
+        if c['kind'] == 'reent':
+            memo = {}
+            run_flat(c, f, memo)
+            flat = {g: r['rec'] for g, r in memo.items()}
+            variables, fns = dict(VARS), dict(CUSTOM)
+            for name, stn in c['names'].items():
+                v = flat.get(formula_of(stn), {'result': None})['result']
+                if v is not None:
+                    variables[name] = v
+            for name, text in c['fns'].items():
+                r = flat.get(text)
+                if r is None:
+                    continue
+                if r['error'] is not None and c.get('onerr'):
+                    fns[name] = '(raisexl %s)' % fx.ERR_TAGS.get(r['error'], 'error')
+                else:
+                    fns[name] = '(const %s)' % fx.to_wire(r['result'])
+        for e in postorder(_fix(st['t'])) if 't' in st else _scan_refs(f):
             if e[0] == 'cell' and ref_split(e[1]) is not None:
                 lab = e[1].upper()
-                v = cell_value(lab)
+                if flat is not None and lab in c['cells']:
+                    v = flat.get(formula_of(c['cells'][lab]), {'result': None})['result']
+                else:
+                    v = cell_value(lab)
                 if v is not None:
                     cells[lab] = v
             elif e[0] == 'range' and usable(e[1]) and usable(e[2]):
@@ -593,7 +1038,7 @@ def request(c):
                 v = range_value(l1, l2)
                 if v is not None:
                     ranges[(l1, l2)] = v
-        return 'eval %s %s' % (enc_str(f), fx.env_wire(variables=VARS, fns=CUSTOM, cells=cells, ranges=ranges))
+        return 'eval %s %s' % (enc_str(f), fx.env_wire(variables=variables, fns=fns, cells=cells, ranges=ranges))
     known, init = _init_value(c)
     if not known:
         return None
@@ -652,7 +1097,7 @@ def _event_agrees(m, e):
 
 def agree(c, ans, model_ans):
     m = fx.parse_sexp(model_ans)
-    if c['kind'] == 'tree':
+    if c['kind'] in ('tree', 'session', 'reent'):
         if not (isinstance(m, list) and len(m) == 2):
             return False
         mrec, mlog = m
@@ -727,39 +1172,119 @@ def _check_range(e, a, b):
     return None
 
 
+def _expected(st):
+    """the reference / call nodes of a formula descriptor in post-order (None: the text is no formula)"""
+    if 't' in st:
+        return postorder(_fix(st['t']))
+    if 'exp' in st:
+        return [tuple(x) for x in st['exp']]
+    return _expected_fixed(st['f'])
+
+
+def _check_events(f, rec, log, exp):
+    """one event per reference / call node, in post-order, each with the fields the statement prescribes"""
+    if rec['error'] is None:
+        if len(log) != len(exp):
+            return 'formula %r raised %d events, its tree has %d reference/call nodes: %r' % (f, len(log), len(exp), _brief(log))
+    elif len(log) > len(exp):
+        return 'formula %r raised %d events, more than its %d reference/call nodes: %r' % (f, len(log), len(exp), _brief(log))
+    for i, (e, x) in enumerate(zip(log, exp)):
+        if e[0] != x[0]:
+            return 'formula %r: event %d is %r, expected the %s node %r (post-order)' % (f, i, _brief([e]), x[0], x[1:])
+        if x[0] == 'cell':
+            msg = _check_cell(e, x[1])
+        elif x[0] == 'range':
+            msg = _check_range(e, x[1], x[2])
+        elif x[0] == 'var':
+            msg = None if e[1] == x[1] else 'event %d: variable %r, expected %r' % (i, e[1], x[1])
+        else:
+            msg = None if e[1] == x[1] else 'event %d: function %r, expected %r' % (i, e[1], x[1])
+            if msg is None and x[2] is not None and len(e[2]) != x[2]:
+                msg = 'event %d: call of %s with %d arguments, the formula has %d slots' % (i, x[1], len(e[2]), x[2])
+        if msg:
+            return 'formula %r: %s' % (f, msg)
+    return None
+
+
+def same_v(a, b):
+    """equal values of equal types; error values by their text"""
+    from hotxlfp.formulas import error
+    if isinstance(a, error.XLError) and isinstance(b, error.XLError):
+        return str(a) == str(b)
+    if type(a) is not type(b):
+        return False
+    if isinstance(a, (list, tuple)):
+        return len(a) == len(b) and all(same_v(x, y) for x, y in zip(a, b))
+    if isinstance(a, dict):
+        return sorted(a) == sorted(b) and all(same_v(a[k], b[k]) for k in a)
+    return a == b or (a != a and b != b)
+
+
+def _same_run(f, what, got, ref):
+    """the evaluation `got` (made while another evaluation was in progress on the parser, or interrupted by such
+    evaluations) against `ref`: the same formula with every inner result supplied as a constant"""
+    if not same_v(got['rec'], ref['rec']):
+        return '%s %r gave %r, but %r when the inner formulas are evaluated apart and their results supplied as constants' % (
+            what, f, got['rec'], ref['rec'])
+    if len(got['log']) != len(ref['log']) or not all(same_v(x, y) for x, y in zip(got['log'], ref['log'])):
+        return '%s %r raised %r, but %r when the inner formulas are evaluated apart and their results supplied as constants' % (
+            what, f, _brief(got['log']), _brief(ref['log']))
+    return None
+
+
+def _host_text(c):
+    out = ['cell %s holds %r' % (k, formula_of(v)) for k, v in sorted(c['cells'].items())]
+    out += ['name %s holds %r' % (k, formula_of(v)) for k, v in sorted(c['names'].items())]
+    if c['fns']:
+        out.append('%s evaluate their text argument' % '/'.join(sorted(c['fns'])))
+    return 'host evaluates on the same parser: ' + '; '.join(out)
+
+
+def _inner_descr(c):
+    d = {}
+    for st in list(c['cells'].values()) + list(c['names'].values()) + list(c['texts'].values()):
+        d[formula_of(st)] = st
+    return d
+
+
 def oracle(c, ans):
     if c['kind'] == 'tree':
-        if 't' in c:
-            exp = postorder(_fix(c['t']))
-        elif 'exp' in c:
-            exp = [tuple(x) for x in c['exp']]
-        else:
-            exp = _expected_fixed(c['f'])
-            if exp is None:
-                return None
-        log = ans['log']
-        f = ans['f']
-        if ans['rec']['error'] is None:
-            if len(log) != len(exp):
-                return 'formula %r raised %d events, its tree has %d reference/call nodes: %r' % (f, len(log), len(exp), _brief(log))
-        elif len(log) > len(exp):
-            return 'formula %r raised %d events, more than its %d reference/call nodes: %r' % (f, len(log), len(exp), _brief(log))
-        for i, (e, x) in enumerate(zip(log, exp)):
-            if e[0] != x[0]:
-                return 'formula %r: event %d is %r, expected the %s node %r (post-order)' % (f, i, _brief([e]), x[0], x[1:])
-            if x[0] == 'cell':
-                msg = _check_cell(e, x[1])
-            elif x[0] == 'range':
-                msg = _check_range(e, x[1], x[2])
-            elif x[0] == 'var':
-                msg = None if e[1] == x[1] else 'event %d: variable %r, expected %r' % (i, e[1], x[1])
-            else:
-                msg = None if e[1] == x[1] else 'event %d: function %r, expected %r' % (i, e[1], x[1])
-                if msg is None and x[2] is not None and len(e[2]) != x[2]:
-                    msg = 'event %d: call of %s with %d arguments, the formula has %d slots' % (i, x[1], len(e[2]), x[2])
-            if msg:
-                return 'formula %r: %s' % (f, msg)
-        return None
+        exp = _expected(c)
+        if exp is None:
+            return None
+        return _check_events(ans['f'], ans['rec'], ans['log'], exp)
+    if c['kind'] == 'session':
+        # the statement, on every event of this step, whatever the parser evaluated before
+        exp = _expected(_step(c))
+        if exp is None:
+            return None
+        msg = _check_events(ans['f'], ans['rec'], ans['log'], exp)
+        if msg and ans['before']:
+            msg = 'after %r on the same parser: %s' % (ans['before'], msg)
+        return msg
+    if c['kind'] == 'reent':
+        # the outer formula: its own events (depth 0), all of them, in post-order, value as without re-entrancy
+        exp = _expected(c['outer'])
+        msg = None
+        if exp is not None:
+            msg = _check_events(ans['f'], ans['rec'], ans['log'], exp)
+        if msg is None:
+            msg = _same_run(ans['f'], 'outer formula', ans, ans['flat'])
+        # every inner evaluation is an evaluation of a formula too
+        if msg is None:
+            descr = _inner_descr(c)
+            for i in ans['inner']:
+                iexp = _expected(descr[i['f']]) if i['f'] in descr else None
+                if iexp is not None:
+                    msg = _check_events(i['f'], i['rec'], i['log'], iexp)
+                if msg is None:
+                    msg = _same_run(i['f'], 'inner formula (depth %d)' % i['depth'], i, ans['flat_inner'][i['f']])
+                if msg:
+                    msg = 'while evaluating %r: %s' % (ans['f'], msg)
+                    break
+        if msg:
+            msg = '%s [%s]' % (msg, _host_text(c))
+        return msg
     # setter protocol: last non-None value wins, else the default
     known, init = _init_value(c)
     vals = [v for v in ans['calls'] if v is not None]
@@ -832,6 +1357,10 @@ def _brief(log):
 def nontrivial(c, ans):
     if c['kind'] == 'tree':
         return len(ans['log']) >= 2
+    if c['kind'] == 'session':
+        return len(ans['log']) >= 2 or (len(ans['log']) >= 1 and c['k'] >= 1)
+    if c['kind'] == 'reent':
+        return len(ans['inner']) >= 1 and len(ans['log']) >= 2
     return any(len(p) for p in c['plan'])
 
 
@@ -842,32 +1371,77 @@ def search(rng, ctx, disagreements):
     return cases(rng, c2)
 
 
-def shrink(c, msg):
-    """smaller failing sub-tree, if one fails too"""
-    if c.get('kind') != 'tree' or 't' not in c:
-        return c, msg
-    best = (c, msg)
-    todo = [_fix(c['t'])]
+def _kids(t):
+    if t == 'blank' or not isinstance(t, (list, tuple)):
+        return []
+    if t[0] == 'neg':
+        return [t[1]]
+    if t[0] == 'bin':
+        return [t[2], t[3]]
+    if t[0] == 'call':
+        return [k for k in list(t[3]) + list(t[4]) if k != 'blank']
+    if t[0] == 'arr':
+        return [k for k in list(t[2]) + list(t[3]) if k != 'blank']
+    return []
+
+
+def _shrink_tree(t, fails):
+    """descend into sub-trees as long as one of them still fails; -> (tree, message) or None"""
+    best = None
+    todo = [_fix(t)]
     while todo:
         t = todo.pop()
-        if t == 'blank':
-            continue
-        kids = []
-        if t[0] == 'neg':
-            kids = [t[1]]
-        elif t[0] == 'bin':
-            kids = [t[2], t[3]]
-        elif t[0] == 'call':
-            kids = list(t[3]) + list(t[4])
-        elif t[0] == 'arr':
-            kids = list(t[2]) + list(t[3])
-        for k in kids:
-            if k == 'blank':
-                continue
-            cc = {'kind': 'tree', 't': k, 'full': False, 'ws': 0}
-            m = oracle(cc, impl(cc))
+        for k in _kids(t):
+            m = fails(k)
             if m:
-                best = (cc, m)
+                best = (k, m)
                 todo.append(k)
                 break
     return best
+
+
+def _fails(cc):
+    m = oracle(cc, impl(cc))
+    return (cc, m) if m else None
+
+
+def shrink(c, msg):
+    """smaller failing input, if one fails too"""
+    kind = c.get('kind')
+    if kind == 'tree' and 't' in c:
+        r = _shrink_tree(c['t'], lambda k: oracle({'kind': 'tree', 't': k}, impl({'kind': 'tree', 't': k})))
+        return ({'kind': 'tree', 't': r[0], 'full': False, 'ws': 0}, r[1]) if r else (c, msg)
+    if kind == 'session':
+        # fewer steps before the failing one, then smaller formulas
+        best = (c, msg)
+        steps, k = c['steps'], c['k']
+        cands = [[steps[k]]] + [[steps[j], steps[k]] for j in range(k)] + \
+                [[steps[i], steps[j], steps[k]] for i in range(k) for j in range(i + 1, k)]
+        for cand in cands:
+            r = _fails({'kind': 'session', 'steps': cand, 'k': len(cand) - 1})
+            if r:
+                best = r
+                break
+        steps = [dict(st) for st in best[0]['steps']]
+        for i in range(len(steps)):
+            if 't' not in steps[i]:
+                continue
+
+            def fails(sub, i=i):
+                cand = steps[:i] + [{'t': sub, 'full': False, 'ws': 0}] + steps[i + 1:]
+                r = _fails({'kind': 'session', 'steps': cand, 'k': len(cand) - 1})
+                return r[1] if r else None
+            r = _shrink_tree(steps[i]['t'], fails)
+            if r:
+                steps[i] = {'t': r[0], 'full': False, 'ws': 0}
+                best = ({'kind': 'session', 'steps': [dict(st) for st in steps], 'k': len(steps) - 1}, r[1])
+        return best
+    if kind == 'reent' and 't' in c['outer']:
+        def fails(sub):
+            cc = dict(c, outer={'t': sub, 'f': fx.render(_fix(sub), levels=levels())})
+            r = _fails(cc)
+            return r[1] if r else None
+        r = _shrink_tree(c['outer']['t'], fails)
+        if r:
+            return dict(c, outer={'t': r[0], 'f': fx.render(_fix(r[0]), levels=levels())}), r[1]
+    return c, msg
